@@ -18,3 +18,9 @@ package domainscrawl
 //@   opaque
 //@   modifies nothing
 //@   ensures result == dcMatch(rawURL)
+
+// AddElements fills the package's private matcher (its own slices); assumed to write nothing
+// else the caller can see (in particular not the operator's configuration lists).
+//@ func AddElements
+//@   opaque
+//@   modifies matchEngine::*
